@@ -251,6 +251,28 @@ ExtCmpVerdict(c) ==
                 \o (IF x.depA # x.depB THEN <<"C10:consumer left in a different state (nesting depths differ)">> ELSE <<>>)
       ELSE <<>>)
 
+\* ---- kind "fault" (C16) ------------------------------------------------------------
+(* The harness first runs the case fault-free to measure the number W of   *)
+(* sink writes (encoders) or E of visitor events (producers), then runs it *)
+(* once per fault position k = 1..W (the sink fails from its k-th write    *)
+(* on) resp. k = 1..E (the visitor fails at its k-th event).  Error latch: *)
+(* the failure must surface as an error of the call sequence; a producer   *)
+(* must return the visitor's error itself and deliver nothing after it.    *)
+FaultVerdict(c) ==
+  LET runs == c.extra.runs
+      J == 1..Len(runs)
+      prod == c.sub.target \in {"parser", "adapter"} IN
+  (IF c.outcome # "ok" THEN <<"C16:outcome:" \o c.outcome>> ELSE <<>>)
+  \o (IF c.outcome = "ok" /\ \E j \in J : runs[j].outcome # "ok" THEN <<"C16:panic while handling an injected failure">> ELSE <<>>)
+  \o (IF c.outcome = "ok" /\ ~prod /\ \E j \in J : runs[j].outcome = "ok" /\ ~runs[j].reported
+      THEN <<"C16:a failing sink write was not reported by any call up to the last event">> ELSE <<>>)
+  \o (IF c.outcome = "ok" /\ prod /\ \E j \in J : runs[j].outcome = "ok" /\ ~runs[j].reported
+      THEN <<"C16:a visitor error was swallowed by the producer">> ELSE <<>>)
+  \o (IF c.outcome = "ok" /\ prod /\ \E j \in J : runs[j].reported /\ ~runs[j].same
+      THEN <<"C16:the producer returned a different error than the visitor's">> ELSE <<>>)
+  \o (IF c.outcome = "ok" /\ prod /\ \E j \in J : runs[j].after > 0
+      THEN <<"C16:events were delivered after the visitor had failed">> ELSE <<>>)
+
 \* ---- the trace machine ----------------------------------------------------------
 Verdict(c) ==
   CASE c.kind = "parse" -> ParseVerdict(c)
@@ -258,6 +280,7 @@ Verdict(c) ==
     [] c.kind = "transcode" -> TranscodeVerdict(c)
     [] c.kind = "sched" -> SchedVerdict(c)
     [] c.kind = "extcmp" -> ExtCmpVerdict(c)
+    [] c.kind = "fault" -> FaultVerdict(c)
     [] OTHER -> <<"INFRA:unknown case kind">>
 
 Init == i = 1 /\ nfail = 0
